@@ -137,6 +137,26 @@ func runC08() {
 		p := &interpgen.Program{Unlock: []byte{}, Lock: cat(body, []byte{0x74, 0x75, 0x51}), Flags: fl, Kind: "alias-chain"}
 		emit(p.Fix())
 	}
+	// a result is kept (also as a copy, also on the alt stack) while another opcode produces its own:
+	// every ordered pair of value-producing snippets; whatever the second one does, the first result stays
+	nPairs := 0
+	for i, t1 := range transforms {
+		for j, t2 := range transforms {
+			nPairs++
+			if !c.Thorough() && (i*len(transforms)+j)%3 != int(c.Seed%3) && !(i >= 9 && i <= 13 && j >= 9 && j <= 13) {
+				continue // quick: a third of the pairs per seed, the hash x hash block always
+			}
+			x, y := twinValues[(i+j)%len(twinValues)], twinValues[(i*7+j*3+1)%len(twinValues)]
+			keep := [][]byte{{}, {0x76}, {0x76, 0x6b}}[(i+2*j)%3]
+			body := cat(interpgen.Push(x), t1.code, keep, interpgen.Push(y), t2.code)
+			fl := uint32(0)
+			if (i+j)%2 == 1 {
+				fl = interpgen.FGenesis
+			}
+			p := &interpgen.Program{Unlock: []byte{}, Lock: cat(body, []byte{0x74, 0x75, 0x6c, 0x75, 0x51}), Flags: fl, Kind: "retain/" + t1.name + "/" + t2.name}
+			emit(p.Fix())
+		}
+	}
 	// P2SH: the saved first stack shares data with the redeem script that is then executed
 	for i := 0; i < 40; i++ {
 		p := interpgen.P2SH(r)
@@ -155,5 +175,5 @@ func runC08() {
 		nShapes = 20000
 	}
 	sigShapes(r, buffersOnly, nShapes)
-	c.Stats.Rule = "800 signature-opcode shapes with a transaction context (implementation only: caller buffers, tx serialisation and the prevout record compared); provenance x transformation matrix: 17 ways of obtaining two stack items backed by the same data (DUP, 2DUP, 3DUP, OVER, 2OVER, PICK, TUCK, IFDUP, both halves of SPLIT, alt-stack round trips, pushes straight from the script bytes, ROT/SWAP/ROLL of duplicates) x 42 value-transforming opcode snippets x 14 twin values x both eras, in the locking script and in the unlocking script; random chains of 2-3 transformations; P2SH (saved stack shared with the redeem script); runs with a transaction context. Every snapshot of every stack item after every step is compared with the model (in which values cannot alias), the frame property is stated directly on the snapshots, and the caller-held script and transaction buffers are compared byte for byte before/after. distinct = distinct program; non-trivial = at least one step completed"
+	c.Stats.Rule = "800 signature-opcode shapes with a transaction context (tested input at index 0..2, 1..4 outputs, all base hash types incl. SINGLE/NONE with and without ANYONECANPAY/FORKID) (implementation only: caller buffers, tx serialisation and the prevout record compared); provenance x transformation matrix: 17 ways of obtaining two stack items backed by the same data (DUP, 2DUP, 3DUP, OVER, 2OVER, PICK, TUCK, IFDUP, both halves of SPLIT, alt-stack round trips, pushes straight from the script bytes, ROT/SWAP/ROLL of duplicates) x 42 value-transforming opcode snippets x 14 twin values x both eras, in the locking script and in the unlocking script; random chains of 2-3 transformations; every ordered pair of the 42 snippets with the first result retained (plain, duplicated, or parked on the alt stack) while the second runs (quick: a third of the pairs per seed plus all hash x hash pairs); P2SH (saved stack shared with the redeem script); runs with a transaction context. Every snapshot of every stack item after every step is compared with the model (in which values cannot alias), the frame property is stated directly on the snapshots, and the caller-held script and transaction buffers are compared byte for byte before/after. distinct = distinct program; non-trivial = at least one step completed"
 }
